@@ -5,7 +5,8 @@ import c10_common as C
 import c10_dev
 
 PROP = 'C10'
-COQ_TARGETS = ['theories/AsapFacts.vo', 'theories/AsapCodecFacts.vo', 'theories/DeviceRxFacts.vo', 'theories/DeviceRxReply.vo']
+COQ_TARGETS = ['theories/AsapFacts.vo', 'theories/AsapCodecFacts.vo', 'theories/DeviceRxFacts.vo', 'theories/DeviceRxReply.vo',
+               'theories/DeviceRxEnd.vo']
 COQ_IMPORTS = ('From Bac Require Import Base.\nFrom Bac Require Import Tag.\nFrom Bac Require Import Asap.\nFrom Bac Require Import AsapCodec.\n'
                'From Bac Require SsmWorld.\nFrom Bac Require Import Ssm DeviceRx.')
 RULE = ('valid confirmed requests of every supported service (ReadProperty, WriteProperty, ReadPropertyMultiple, SubscribeCOV, '
@@ -15,10 +16,21 @@ RULE = ('valid confirmed requests of every supported service (ReadProperty, Writ
         'model from the independently observed decode outcome and service outcome vs the reply on the LAN.  direct: exactly one reply '
         'with the invoke ID, no transaction/timer residue, garbage (random octets at network and application layer, corrupted '
         'headers) interleaved with valid requests in one instant, and a valid request afterwards.  non-trivial = the mutated frame '
-        'differs from the valid one; distinct by octets.')
+        'differs from the valid one; distinct by octets.  Device level (kinds dev:*): every third mutated frame and scenario '
+        'families (garbage of every layer incl. address-field shapes and network-layer messages interleaved with valid requests, '
+        'histories of valid traffic with time passing, routed requests through alternating routers with a planted I-Am-Router, '
+        'small max-APDU codes with good/bad segment acks and client aborts, segmented requests in/out of order with duplicates, '
+        'a device with communication disabled): every injected frame is predicted from its raw octets by DeviceRx.device_rx '
+        '(frames sent with destination, route, PDU type, invoke ID, reason / error class+code, segmentation; server '
+        'transactions, their armed timers, orphan timers after each frame and at quiescence) and compared with the stack.')
 TRUSTED = ['model coq/theories/Asap.v + AsapCodec.v = service lookup (registry translated from apdu.py), parameter decoding by the C03 codec model, dispatch and error mapping of ApplicationServiceAccessPoint.indication and Application.indication; '
            'service execution enters the model as an observed outcome (modelled under C15/C16)',
-           'the transport half (ServerSSM) is modelled under C04/C12']
+           'the transport half (ServerSSM) is modelled under C04/C12',
+           'model coq/theories/DeviceRx.v = hand-written composition (process_npdu of a one-adapter device, SMAP demultiplexing, sap_confirmation, '
+           'NSAP.indication for replies) of Npci.dec_npci/dec_msg (C08), RouterCache (C19), Apci.dec_apci (C07), Ssm.s_indication/s_confirmation/'
+           's_process_task (C04/C05/C11/C12), AsapCodec.asap_octets (C03 codec); tied by the dev:* correspondence cases',
+           'service-layer outcome per frame (helper present, response/exception, ComplexAck parameter length, I-Am cache update) observed by '
+           'instance-level wrappers at the helper / ASAP boundary of the device under test (harness/c10_dev.py)']
 ASSUMPTIONS = ['replies are observed on the virtual LAN by a bare node with an independent minimal NPDU/APDU parser',
                'link-layer (BVLL) garbage is injected as raw datagrams toward a B/IP device (BIPSimple + AnnexJCodec over a socket-free multiplexer) in the direct check']
 
@@ -483,7 +495,7 @@ def direct(rng, tier, focus=()):
                              'datagrams': [f.hex() for f in frames], 'residue': res})
         nontriv.add(tuple(frames))
     samples.append({'direct': 'BVLL garbage + valid Original-Unicast request', 'example': bvll(0x0a, C.npdu(rp)).hex()})
-    return failures, {'evaluations': n, 'distinct_nontrivial': len(nontriv), 'samples': samples}
+    return failures, {'evaluations': n, 'distinct_nontrivial': len(nontriv), 'samples': samples, 'device_level_notes': dict(DEV_STATS)}
 
 
 def _has_reserved_maxapdu(frames_hex):
